@@ -1,2 +1,3 @@
 //! Independent reference implementations.
 pub mod hcobs_ref;
+pub mod tlv_ref;
